@@ -1,8 +1,245 @@
-//! C15 correspondence streams (stub).
-use crate::util::Opts;
+//! C15: frame composition.  The real `VideoState` is driven through its public API over one full
+//! frame from power-on (LY=144, mode 1): 4560 clocks to line 0, 144 x 456 clocks to VBlank entry
+//! (where the buffers are swapped), in random batch sizes (multiples of 4), with VRAM, OAM and all
+//! registers held constant.  The presented frame is `get_visible_buffer()`.
+//!
+//! line: c15 k=<case> lcdc=.. scx=.. scy=.. wx=.. wy=.. bgp=.. obp0=.. obp1=.. bs=<batch seed>
+//!           oam=<320 hex> vram=<16384 hex> | frame=<46080 hex>      (or `| panic=<kind>`)
+//! Options: --n <frames>  --shard i/n  --replay-line "<line>"
+use crate::devices::video::VideoState;
+use crate::timing::ClockCycles;
+use crate::util::{Opts, Rng};
 use std::io::Write;
 
-pub fn run(sub: &str, _opts: &Opts, _w: &mut dyn Write) {
-  eprintln!("stream c15.{} not implemented", sub);
-  std::process::exit(2);
+pub struct Case {
+  pub k: u64,
+  pub lcdc: u8, pub scx: u8, pub scy: u8, pub wx: u8, pub wy: u8,
+  pub bgp: u8, pub obp0: u8, pub obp1: u8,
+  pub bs: u64,
+  pub oam: Vec<u8>,
+  pub vram: Vec<u8>,
+}
+
+const HEX: &[u8; 16] = b"0123456789abcdef";
+fn hex_into(s: &mut Vec<u8>, bytes: &[u8]) {
+  for b in bytes { s.push(HEX[(b >> 4) as usize]); s.push(HEX[(b & 15) as usize]); }
+}
+fn unhex(s: &str) -> Vec<u8> {
+  let b = s.as_bytes();
+  let v = |c: u8| -> u8 { match c { b'0'..=b'9' => c - b'0', b'a'..=b'f' => c - b'a' + 10, b'A'..=b'F' => c - b'A' + 10, _ => 0 } };
+  (0..b.len() / 2).map(|i| v(b[2 * i]) * 16 + v(b[2 * i + 1])).collect()
+}
+
+/// run the real pipeline; Err(kind) if it panicked
+pub fn render(c: &Case) -> Result<Vec<u8>, String> {
+  let vram: Box<[u8]> = c.vram.clone().into_boxed_slice();
+  let oam: Box<[u8]> = c.oam.clone().into_boxed_slice();
+  let r = std::panic::catch_unwind(std::panic::AssertUnwindSafe(|| {
+    let mut v = VideoState::new();
+    v.set_lcd_control(c.lcdc);
+    v.set_bgp(c.bgp);
+    v.set_obj_palette(0, c.obp0);
+    v.set_obj_palette(1, c.obp1);
+    v.set_scroll_x(c.scx);
+    v.set_scroll_y(c.scy);
+    v.set_window_x(c.wx);
+    v.set_window_y(c.wy);
+    let mut rng = Rng::new(c.bs);
+    let mut remaining: usize = 4560 + 144 * 456;
+    while remaining > 0 {
+      // batch sizes: single ticks, instruction-sized, line-sized and multi-line batches
+      let b = match rng.below(4) {
+        0 => 4,
+        1 => 4 * (1 + rng.below(6) as usize),
+        2 => 4 * (1 + rng.below(114) as usize),
+        _ => 4 * (1 + rng.below(1200) as usize),
+      };
+      let b = b.min(remaining);
+      v.run_clock_cycles(ClockCycles(b), &vram, &oam);
+      remaining -= b;
+    }
+    // the machine must now be at VBlank entry
+    if v.get_ly() != 144 || v.get_current_mode() != 1 { return Err(format!("notvblank-ly{}-mode{}", v.get_ly(), v.get_current_mode())); }
+    Ok(v.get_visible_buffer().to_vec())
+  }));
+  match r {
+    Ok(Ok(f)) => Ok(f),
+    Ok(Err(e)) => Err(e),
+    Err(p) => {
+      let msg = if let Some(s) = p.downcast_ref::<String>() { s.clone() } else if let Some(s) = p.downcast_ref::<&str>() { s.to_string() } else { "panic".into() };
+      let kind = if msg.contains("out of range") || msg.contains("out of bounds") { "oob" } else if msg.contains("overflow") { "overflow" } else { "explicit" };
+      Err(kind.to_string())
+    }
+  }
+}
+
+fn emit(c: &Case, w: &mut dyn Write) {
+  let mut s: Vec<u8> = Vec::with_capacity(64000);
+  s.extend_from_slice(format!("c15 k={} lcdc={} scx={} scy={} wx={} wy={} bgp={} obp0={} obp1={} bs={} oam=",
+    c.k, c.lcdc, c.scx, c.scy, c.wx, c.wy, c.bgp, c.obp0, c.obp1, c.bs).as_bytes());
+  hex_into(&mut s, &c.oam);
+  s.extend_from_slice(b" vram=");
+  hex_into(&mut s, &c.vram);
+  match render(c) {
+    Ok(f) => { s.extend_from_slice(b" | frame="); hex_into(&mut s, &f); }
+    Err(e) => { s.extend_from_slice(b" | panic="); s.extend_from_slice(e.as_bytes()); }
+  }
+  s.push(b'\n');
+  w.write_all(&s).unwrap();
+}
+
+const X_EDGE: [u8; 16] = [0, 1, 4, 7, 8, 9, 15, 16, 80, 159, 160, 161, 167, 168, 169, 255];
+const Y_EDGE: [u8; 16] = [0, 1, 8, 9, 15, 16, 17, 24, 143, 144, 152, 153, 159, 160, 161, 255];
+const WX_EDGE: [u8; 20] = [0, 1, 2, 3, 4, 5, 6, 7, 8, 9, 15, 16, 87, 159, 160, 165, 166, 167, 168, 200];
+const WY_EDGE: [u8; 10] = [0, 1, 7, 8, 100, 142, 143, 144, 200, 255];
+const SC_EDGE: [u8; 12] = [0, 1, 2, 3, 4, 5, 6, 7, 8, 248, 249, 255];
+
+fn gen_vram(rng: &mut Rng) -> Vec<u8> {
+  let mut v = vec![0u8; 0x2000];
+  let style = rng.below(5);
+  // tile data 0x0000..0x17ff (384 tiles)
+  match style {
+    0 | 1 => { for b in v[..0x1800].iter_mut() { *b = rng.u8(); } }
+    2 => {
+      // half of the tiles blank (BG colour 0 everywhere in them), the rest random
+      for t in 0..384 { if rng.chance(1, 2) { for b in v[t * 16..t * 16 + 16].iter_mut() { *b = rng.u8(); } } }
+    }
+    3 => {
+      // every tile a solid colour c (rows: low = 0/ff, high = 0/ff) with a few random rows
+      for t in 0..384 {
+        let c = rng.below(4);
+        for r in 0..8 {
+          v[t * 16 + 2 * r] = if c & 1 != 0 { 0xff } else { 0 };
+          v[t * 16 + 2 * r + 1] = if c & 2 != 0 { 0xff } else { 0 };
+          if rng.chance(1, 8) { v[t * 16 + 2 * r] = rng.u8(); v[t * 16 + 2 * r + 1] = rng.u8(); }
+        }
+      }
+    }
+    _ => {
+      // sparse: mostly zero, a handful of random tiles
+      for _ in 0..24 { let t = rng.below(384) as usize; for b in v[t * 16..t * 16 + 16].iter_mut() { *b = rng.u8(); } }
+    }
+  }
+  // the two maps 0x1800..0x1fff
+  match rng.below(4) {
+    0 | 1 => { for b in v[0x1800..].iter_mut() { *b = rng.u8(); } }
+    2 => { for (i, b) in v[0x1800..].iter_mut().enumerate() { *b = (i as u8).wrapping_mul(7).wrapping_add(rng.below(3) as u8); } }
+    _ => { let lo = rng.u8(); for b in v[0x1800..].iter_mut() { *b = lo.wrapping_add(rng.below(4) as u8) ^ (if rng.chance(1, 2) { 0x80 } else { 0 }); } }
+  }
+  v
+}
+
+fn gen_oam(rng: &mut Rng) -> Vec<u8> {
+  let mut o = vec![0u8; 0xa0];
+  let style = rng.below(8);
+  match style {
+    0 => { for b in o.iter_mut() { *b = rng.u8(); } }
+    1 => {
+      // on-screen-ish positions
+      for i in 0..40 { o[4 * i] = rng.below(168) as u8; o[4 * i + 1] = rng.below(176) as u8; o[4 * i + 2] = rng.u8(); o[4 * i + 3] = rng.u8(); }
+    }
+    2 | 3 => {
+      // 11..40 objects covering one target line, X from the edge set or clustered
+      let line = rng.below(144) as i32;
+      let many = 11 + rng.below(30) as usize;
+      let cluster = rng.below(176) as u8;
+      for i in 0..40 {
+        let y = if i < many { (line + 16 - rng.below(16) as i32).max(0) as u8 } else { rng.u8() };
+        let x = match rng.below(3) { 0 => *rng.pick(&X_EDGE), 1 => cluster.wrapping_add(rng.below(9) as u8), _ => rng.below(176) as u8 };
+        o[4 * i] = y; o[4 * i + 1] = x; o[4 * i + 2] = rng.u8(); o[4 * i + 3] = rng.u8();
+      }
+    }
+    4 => {
+      // all objects at the same X (ties decided by OAM index) on a few lines
+      let x = if rng.chance(1, 2) { *rng.pick(&X_EDGE) } else { rng.below(168) as u8 };
+      let y0 = rng.below(150) as u8;
+      for i in 0..40 { o[4 * i] = y0.wrapping_add(rng.below(4) as u8); o[4 * i + 1] = x; o[4 * i + 2] = rng.u8(); o[4 * i + 3] = rng.u8(); }
+    }
+    5 => {
+      // staircase of overlapping objects (X step 1..7), Y from the edge set
+      let step = 1 + rng.below(7) as u8;
+      let down = rng.chance(1, 2);
+      let x0 = rng.below(160) as u8;
+      for i in 0..40u8 {
+        o[4 * i as usize] = *rng.pick(&Y_EDGE);
+        o[4 * i as usize + 1] = if down { x0.wrapping_sub(step.wrapping_mul(i)) } else { x0.wrapping_add(step.wrapping_mul(i)) };
+        o[4 * i as usize + 2] = rng.u8(); o[4 * i as usize + 3] = rng.u8();
+      }
+    }
+    6 => {
+      // edge Y x edge X
+      for i in 0..40 { o[4 * i] = *rng.pick(&Y_EDGE); o[4 * i + 1] = *rng.pick(&X_EDGE); o[4 * i + 2] = rng.u8(); o[4 * i + 3] = rng.u8(); }
+    }
+    _ => {
+      // few objects, everything else parked off-screen (Y = 0)
+      for _ in 0..(1 + rng.below(6)) { let i = rng.below(40) as usize; o[4 * i] = rng.below(168) as u8; o[4 * i + 1] = rng.below(176) as u8; o[4 * i + 2] = rng.u8(); o[4 * i + 3] = rng.u8(); }
+    }
+  }
+  // 8x16 corner: tile indices 0xfe / 0xff / odd
+  if rng.chance(1, 4) { for i in 0..40 { if rng.chance(1, 3) { o[4 * i + 2] = *rng.pick(&[0xffu8, 0xfe, 0x01, 0x7f, 0x81]); } } }
+  o
+}
+
+pub fn gen_case(seed: u64, k: u64) -> Case {
+  let mut rng = Rng::new(seed.wrapping_mul(1_000_003).wrapping_add(k).wrapping_add(0xC15));
+  for _ in 0..4 { rng.next(); }
+  // LCDC: bits 7 and 0 set (LCD and BG enabled), bits 1..6 free; objects on 3 times out of 4
+  let mut lcdc = 0x81 | (rng.u8() & 0x7e);
+  if rng.chance(1, 2) { lcdc |= 0x02; }
+  let pick_sc = |rng: &mut Rng| -> u8 { if rng.chance(1, 3) { *rng.pick(&SC_EDGE) } else { rng.u8() } };
+  let mut scx = pick_sc(&mut rng);
+  let mut scy = pick_sc(&mut rng);
+  let mut wx = if rng.chance(2, 3) { *rng.pick(&WX_EDGE) } else { rng.u8() };
+  let mut wy = match rng.below(3) { 0 => *rng.pick(&WY_EDGE), 1 => rng.below(144) as u8, _ => rng.u8() };
+  // systematic sweeps so that every value of each register is met as k grows
+  match k % 8 {
+    0 => scx = (k / 8) as u8,
+    1 => scy = (k / 8) as u8,
+    2 => { wx = (k / 8) as u8; lcdc |= 0x20; wy = rng.below(100) as u8; }
+    3 => { wy = (k / 8) as u8; lcdc |= 0x20; }
+    _ => {}
+  }
+  let pal = |rng: &mut Rng| -> u8 { match rng.below(4) { 0 => 0xe4, 1 => 0x1b, _ => rng.u8() } };
+  let bgp = pal(&mut rng); let obp0 = pal(&mut rng); let obp1 = pal(&mut rng);
+  let bs = rng.next();
+  let oam = gen_oam(&mut rng);
+  let vram = gen_vram(&mut rng);
+  Case { k, lcdc, scx, scy, wx, wy, bgp, obp0, obp1, bs, oam, vram }
+}
+
+fn parse_line(line: &str) -> Case {
+  let mut c = Case { k: 0, lcdc: 0x81, scx: 0, scy: 0, wx: 0, wy: 0, bgp: 0, obp0: 0, obp1: 0, bs: 1, oam: vec![0; 0xa0], vram: vec![0; 0x2000] };
+  for t in line.split_whitespace() {
+    if t == "|" { break; }
+    if let Some(i) = t.find('=') {
+      let (k, v) = (&t[..i], &t[i + 1..]);
+      let n = || v.parse::<u64>().unwrap_or(0);
+      match k {
+        "k" => c.k = n(), "lcdc" => c.lcdc = n() as u8, "scx" => c.scx = n() as u8, "scy" => c.scy = n() as u8,
+        "wx" => c.wx = n() as u8, "wy" => c.wy = n() as u8, "bgp" => c.bgp = n() as u8,
+        "obp0" => c.obp0 = n() as u8, "obp1" => c.obp1 = n() as u8, "bs" => c.bs = n(),
+        "oam" => c.oam = unhex(v), "vram" => c.vram = unhex(v),
+        _ => {}
+      }
+    }
+  }
+  c
+}
+
+pub fn run(_sub: &str, opts: &Opts, w: &mut dyn Write) {
+  // panics inside run_clock_cycles are caught and reported as the observation; keep stderr quiet
+  std::panic::set_hook(Box::new(|_| {}));
+  if let Some(line) = opts.get("replay-line") {
+    emit(&parse_line(line), w);
+    return;
+  }
+  let n = opts.get_usize("n", if opts.thorough { 30000 } else { 300 }) as u64;
+  let (si, sn) = match opts.get("shard") {
+    Some(s) => { let p: Vec<&str> = s.split('/').collect(); (p[0].parse::<u64>().unwrap(), p[1].parse::<u64>().unwrap()) }
+    None => (0, 1),
+  };
+  for k in 0..n {
+    if k % sn != si { continue; }
+    emit(&gen_case(opts.seed, k), w);
+  }
 }
